@@ -133,6 +133,17 @@ def run(ctx):
         corr_cases.append(({'kind': 'property', 'text': txt}, [o], dumps([S('mkprop'), property_to_wire(p)])))
         if 'p' in holder:
             asts.append(('parse_property', txt, holder['p']))
+    # rule-directed inputs for the rewriting functions (what makes them build new nodes), parsed as predicates / expressions
+    from rulefam import rule_directed
+    for r in rule_directed(rng, ctx.quick):
+        try:
+            txt = render(r, rng, 'min')
+            if r[0] in ('quant', 'un') or (r[0] == 'bin' and r[1] in ('>', '=', '!=', '<', '<=', '>=', 'in', 'and', 'or', 'implies', 'iff')):
+                asts.append(('parse_predicate[rule-directed]', '{' + txt + '}', prp.parse('{' + txt + '}')))
+            else:
+                asts.append(('parse_expression[rule-directed]', txt, ep.parse(txt)))
+        except Exception:
+            rejects += 1
     # rewriting functions, compositions of depth <= 2
     derived = []
     for origin, src, obj in asts:
